@@ -675,7 +675,8 @@ impl Axecutor {
             if self.mem_init_zero(start, length).is_ok() {
                 break;
             }
-            start += length;
+            // Always advance (also for a zero-length request) and never past the address space
+            start = start.saturating_add(std::cmp::max(length, 1));
         }
 
         Ok(start)
@@ -704,7 +705,8 @@ impl Axecutor {
             if res.is_ok() {
                 break;
             }
-            start += data.len() as u64;
+            // Always advance (also for empty data) and never past the address space
+            start = start.saturating_add(std::cmp::max(data.len() as u64, 1));
         }
 
         Ok(start)
